@@ -1001,3 +1001,55 @@ func HarnessC08DestReuse() {
 		}
 	}
 }
+
+// C12.filterwide: the same with four-attribute sets of which the filter keeps
+// the first two: streams that become identical are added together (the filtered
+// set is a canonical Set whatever the positions of the dropped attributes)
+func HarnessC12FilterWide() {
+	aggClock()
+	mk := func(a, c int) attribute.Set {
+		return attribute.NewSet(attribute.Int("a", a), attribute.Int("b", 1), attribute.Int("c", c), attribute.Int("d", c))
+	}
+	full := []attribute.Set{mk(1, 1), mk(1, 2), mk(2, 1)}
+	want := []attribute.Set{attribute.NewSet(attribute.Int("a", 1), attribute.Int("b", 1)), attribute.NewSet(attribute.Int("a", 2), attribute.Int("b", 1))}
+	wantIdx := []int{0, 0, 1}
+	temp := metricdata.CumulativeTemporality
+	if vndChoice(2) == 1 {
+		temp = metricdata.DeltaTemporality
+	}
+	b := Builder[int64]{Temporality: temp, Filter: attribute.NewAllowKeysFilter("a", "b")}
+	m, c := b.Sum(false)
+	ctx := context.Background()
+	var sums [2]int64
+	var seen [2]bool
+	k := vndParam("K", 3)
+	for step := 0; step < k; step++ {
+		v := vndI64()
+		fi := vndChoice(3)
+		m(ctx, v, full[fi])
+		sums[wantIdx[fi]] += v
+		seen[wantIdx[fi]] = true
+	}
+	var dest metricdata.Aggregation
+	c(&dest)
+	d, _ := dest.(metricdata.Sum[int64])
+	vndReach("filter")
+	var got [2]bool
+	for _, p := range d.DataPoints {
+		i := -1
+		for j := range want {
+			if p.Attributes.Equals(&want[j]) {
+				i = j
+			}
+		}
+		vndAssert(i >= 0, "filter-reports-under-filtered-set")
+		if i >= 0 {
+			vndAssert(!got[i], "filter-merges-streams-that-become-identical")
+			got[i] = true
+			vndAssert(p.Value == sums[i], "filter-adds-merged-streams")
+		}
+	}
+	for i := range want {
+		vndAssert(got[i] == seen[i], "filter-reports-every-measured-stream")
+	}
+}
